@@ -286,11 +286,11 @@ def part_c08(rebound, lattice, tier, V):
                 sim.integrate(T, exact_finish_time=0)
                 n += 1
                 want = math.ceil(off - 1e-12) * dt
-                if abs(sim.t - want) > 1e-9 * dt:
+                if not (abs(sim.t - want) <= 1e-9 * dt):
                     V.append(("end-time:whfast512", "whfast512{N_systems=%d,keep=%d}: integrate(%g dt) without exact finishing ended at t=%r, expected %r" % (ns, keep, off, sim.t, want), {"ns": ns, "keep": keep, "off": off}))
                 if any(b < a for a, b in zip(ts, ts[1:])):
                     V.append(("monotone:whfast512", "time is not monotone at the step boundaries: %s" % ts[:8], {"ns": ns, "keep": keep, "off": off}))
-                if abs(sim.dt - dt) > 0:
+                if not (abs(sim.dt - dt) <= 0):
                     V.append(("dt-changed:whfast512", "dt changed from %r to %r" % (dt, sim.dt), {"ns": ns, "keep": keep, "off": off}))
     return n
 
@@ -320,7 +320,7 @@ def part_c09(rebound, lattice, tier, V):
                     st = state(sim)
                     d = max(abs(x - y) for p, q in zip(st, ref[1]) for x, y in zip(p, q))
                     sc = max(abs(x) for p in ref[1] for x in p)
-                    if d > 1e-12 * sc:
+                    if not (d <= 1e-12 * sc):
                         V.append(("resync-vs-keep:whfast512", "whfast512{N_systems=%d}: re-synchronising at outputs after %s steps changes the result by %.3g of the system size (only rounding is allowed: the merged drift is exact)" % (ns, list(seq), d / sc), {"ns": ns, "seq": list(seq)}))
     return n
 
@@ -346,7 +346,7 @@ def part_c10(rebound, lattice, tier, V):
             sv = max(abs(v) for p in s0 for v in p[3:])
             d = max(abs(a - b) / (sp if k < 3 else sv) for p, q in zip(s0, s1) for k, (a, b) in enumerate(zip(p, q)))
             n += 1
-            if d > 2000 * U * math.sqrt(nsteps) * 10:
+            if not (d <= 2000 * U * math.sqrt(nsteps) * 10):
                 V.append(("reverse:whfast512", "whfast512{N_systems=%d}: %d steps, velocities flipped, %d steps do not return to the start: %.3g of the scale" % (ns, nsteps, nsteps, d), {"ns": ns, "n": nsteps}))
     return n
 
